@@ -137,6 +137,60 @@ def replay_case(col, item):
     return rec
 
 
+def bundles(col, seed):
+    """files= given as bundles (lists of files): one task and one result per bundle, in bundle order; a bundle read on
+    content is the list of its files' contents in order."""
+    import typhon.files.fileset as FM
+    rng = random.Random(seed)
+    n = rng.randint(3, 7)
+    tree = build(n)
+    log = EventLog()
+    gate = Gate(rng=rng)
+    Pool = make_gated_pool(log, gate)
+    saved = FM.ThreadPoolExecutor
+    try:
+        FM.ThreadPoolExecutor = Pool
+        reads = []
+        fs = tree.fileset(handler=make_handler(set(), reads))
+        infos = list(fs.find())
+        size = rng.choice([2, 3])
+        bl = [infos[i:i + size] for i in range(0, n, size)]
+        exp = [[tree.ids([x])[0] for x in b] for b in bl]
+        W = rng.choice([1, 2, 3])
+        rep = {"abstract": {"n": n, "bundles": exp, "W": W}}
+        # (a) function on the FileInfo bundle
+        got = fs.map(lambda b: [tree.ids([x])[0] for x in b], files=bl, max_workers=W, worker_type="thread")
+        col.count(1)
+        if got != exp:
+            col.violation("map-bundles-wrong-order-or-content", dict(rep, observed=got))
+        got = [v for _, v in fs.imap(lambda b: [tree.ids([x])[0] for x in b], files=bl, max_workers=W, worker_type="thread", return_info=True)]
+        col.count(1)
+        if got != exp:
+            col.violation("imap-bundles-wrong-order-or-content", dict(rep, observed=got))
+        # (b) on content: every file of every bundle read exactly once, contents in order
+        del reads[:]
+        got = fs.map(lambda content: list(content), files=bl, on_content=True, max_workers=W, worker_type="thread")
+        col.count(1)
+        if got != exp or sorted(reads) != list(range(1, n + 1)):
+            col.violation("map-bundles-on-content-wrong", dict(rep, observed={"result": got, "reads": sorted(reads)}))
+        # (c) the same via find(bundle=...)
+        got = fs.map(lambda b: [tree.ids([x])[0] for x in b], bundle=size, max_workers=W, worker_type="thread")
+        col.count(1)
+        if got != exp:
+            col.violation("map-find-bundle-wrong", dict(rep, observed=got))
+        # (d) a function returning None is a result like any other
+        got = fs.map(lambda info: None, max_workers=W, worker_type="thread")
+        if got != [None] * n:
+            col.violation("map-none-results-lost", dict(rep, observed=got))
+        col.nontrivial.add(("bundles", seed))
+    except Exception as ex:
+        col.violation("bundles-raise-" + type(ex).__name__, {"abstract": {"n": n}, "observed": repr(ex)[:300]})
+    finally:
+        gate.close()
+        FM.ThreadPoolExecutor = saved
+        tree.remove()
+
+
 def empty_selection(col, _):
     """files=[] is a selection of nothing: no task may run, nothing may be returned."""
     tree = build(3)
@@ -371,6 +425,7 @@ def run(ctx):
                 "INVARIANT CacheMinimal\nINVARIANT ErrorsOnlyFromFailures\nINVARIANT PrefixRight\nPROPERTY Terminates\n" % (2 if quick else 3))
     ctx.tlc(d, "AlignDesign", "MCAlign.cfg", workers=16, timeout=2400)
     pmap(ctx, empty_selection, [0], procs=1)
+    pmap(ctx, bundles, [ctx.seed * 13 + i for i in range(12 if quick else 150)])
     pmap(ctx, align_case, [ctx.seed * 100 + i for i in range(160 if quick else 1500)])
     pmap(ctx, process_pool_run, [ctx.seed * 7 + i for i in range(4 if quick else 40)], procs=1)
 
